@@ -78,7 +78,7 @@ func vrtHarness_C05_ageing() {
 	r.Question = []dns.Question{{Name: "a.", Qtype: dns.TypeA, Qclass: dns.ClassINET}}
 	r.Answer = vrtSection(vrtParam("max_rr", 2), []int{0, 1}, "a.")
 	r.Ns = vrtSection(1, []int{2}, "a.")
-	r.Extra = vrtSection(vrtParam("max_rr", 2), []int{0, 3}, "a.")
+	r.Extra = vrtSection(vrtParam("max_extra", 2), []int{0, 3}, "a.")
 	lazy := 0
 	if vrtChoice(2) == 1 {
 		lazy = int(vrtU32()&0xffffff) + 1
